@@ -630,6 +630,10 @@ def gen_cycle_cases(rng, n, algos, p_float=0.12):
         if algo == "mgm2":
             params = dict(threshold=rng.choice([0.0, 0.3, 0.5, 0.5, 0.8, 1.0]),
                           favor=rng.choice(["unilateral", "no", "coordinated"]))
+        if algo == "mgm" and rng.random() < 0.4:
+            # break_mode=random: on the code as it is _break_ties tests `self.break_mode == random` (the
+            # module), always false, so it behaves exactly as the default lexical mode (= the model)
+            params = dict(break_mode="random")
         cases.append(dict(algo=algo, mode=rng.choice(["min", "max"]), stop_cycle=k, params=params, vars=vars_,
                           cons=cons, seed=rng.randrange(10 ** 9), policy=policy_for(rng, len(vars_)),
                           max_steps=4000 if full else rng.randint(5, 120), full=1 if full else 0))
